@@ -579,6 +579,12 @@ SEEDS = [
                 }
                 parent_index = parent.parent;
                 index = parent_index;""", note='node cursor advanced to the new parent (order of the two updates swapped)'),
+    dict(id='SZ1-seg-count-half-open', props=['C10'], file='src/seg/layout.rs',
+         old="""        let order = self.index(self.max);""",
+         new="""        let order = self.index(self.max - 1);""", note='number of lists computed for a half-open domain: the bucket of the maximum has no list when it is alone in its bucket'),
+    dict(id='SZ3-seg-ctor-one-list-short', props=['C10'], file='src/seg/tree.rs',
+         old="""            chunks: vec![Chunk::new(); count],""",
+         new="""            chunks: vec![Chunk::new(); count - 1],""", note='the constructor allocates one list fewer than the layout counts (the tests never touch the last bucket of a domain)'),
     dict(id='PG1-key-expire-root-no-removal', props=['C10'], file='src/key/tree.rs',
          old="""                return index;
             }
